@@ -69,6 +69,12 @@ def gen(tier: str, seed: int) -> list[Case]:
             continue
         files = {"src/" + fk: ({"hex": fv.hex()} if isinstance(fv, bytes) else fv) for fk, fv in sfiles.items()}
         cases.append(Case(cid=f"c10-scenario-{feat}", files=files, opts=list(optsets[k % len(optsets)]), meta={}, reach=REACH))
+        if k % 3 == 0:
+            # the same package addressed through its parent directory (no package itself, holds exactly this package):
+            # the inventory is named after the directory given with -s
+            c = Case(cid=f"c10-scenario-{feat}-via-parent", files=files, opts=list(optsets[(k + 1) % len(optsets)]), out_spelling=spell[k % len(spell)], meta={}, reach=REACH)
+            c.src = "src"
+            cases.append(c)
     return cases
 
 
